@@ -16,7 +16,7 @@ import vlib as V
 
 TAILS = [1e-6, 1e-5, 1e-4, 1e-3, 0.01, 0.05]
 QUADRATURE_FAMS = {'nig'}
-VERSION = 11  # bump to invalidate cached probe tables
+VERSION = 13  # bump to invalidate cached probe tables
 
 
 def _round_ty(x, ty):
@@ -74,6 +74,18 @@ def build_probe(case, tier):
         qs = sorted(set(TAILS + [i / B for i in range(1, B)] + [1 - q for q in TAILS]))
         x = np.asarray(law.ppf(np.array(qs)), dtype=np.float64)
         extra = structural_points(fam, pv)
+        # (d) where quantile inversion under/overflows the type: a log-spaced grid just above a finite lower
+        # support bound (from 4 MIN_POSITIVE upwards) and just below a finite upper bound (from 2 ulp downwards)
+        lo_s, hi_s = law.support
+        minpos = 1.1754943508222875e-38 if ty == 'f32' else 2.2250738585072014e-308
+        ulp1 = 2.0 ** -23 if ty == 'f32' else 2.0 ** -52
+        if math.isfinite(lo_s):
+            sc = max(abs(lo_s), abs(hi_s) if math.isfinite(hi_s) else 0.0, 0.0)
+            base = 4 * minpos if lo_s == 0.0 and sc <= 1e30 else max(4 * minpos, 4 * ulp1 * max(abs(lo_s), minpos))
+            extra += [lo_s + base * 2.0 ** (12 * k) for k in range(0, 16) if base * 2.0 ** (12 * k) < 1e-3 * max(sc, 1e-300) or k < 3]
+        if math.isfinite(hi_s) and math.isfinite(lo_s) and hi_s > lo_s:
+            w = hi_s - lo_s
+            extra += [hi_s - w * ulp1 * 2.0 ** (4 * k) for k in range(1, 5)]
         x = np.concatenate([x, np.array(extra, dtype=np.float64)]) if extra else x
         x = _round_ty(x[np.isfinite(x)], ty)
         x = x[np.isfinite(x)]
@@ -115,12 +127,14 @@ def structural_points(fam, pv):
         return [0.0, 3.6541528853610088, -3.6541528853610088]
     if fam == 'exp1':
         return [7.69711747013104972]
-    if fam in ('normal', 'cauchy'):
+    if fam in ('normal', 'normal_cv', 'cauchy'):
         return [pv[0]]
     if fam in ('student_t',):
         return [0.0]
     if fam in ('triangular', 'pert'):
         return [pv[2]]
+    if fam == 'pert_mean':
+        return [pv[2], ((pv[3] + 2.0) * pv[2] - pv[0] - pv[1]) / pv[3]]
     if fam == 'skew_normal':
         return [pv[0]]
     return []
